@@ -331,7 +331,38 @@ def repeated_vertex_eq_stream(ctx, n):
             ctx.disagree("C17:eq:repeated-vertex", desc, (True, True), r[1:3], replay=[desc])
 
 
+def expand_dims_measures_stream(ctx, n):
+    """polygon / segment collections of space after expand_dims (a new collection axis in front, or directly in front of the vertex
+    axis): area, centroid-free measures and lengths are those of the original collection with the new axis of length 1"""
+    import geometer as g
+    rng = ctx.rng
+    for k in range(n):
+        m = rng.randint(2, 3)
+        polys = []
+        for _ in range(m):
+            h = rng.randint(1, 4)
+            a, b = rng.randint(1, 4), rng.randint(1, 4)
+            o = [rng.randint(-3, 3), rng.randint(-3, 3)]
+            tilt = rng.choice([0, 1, 2])                      # plane z = h + tilt * x
+            pts = [(o[0], o[1]), (o[0] + a, o[1]), (o[0] + a, o[1] + b), (o[0], o[1] + b)]
+            polys.append([[float(x), float(y), float(h + tilt * x), 1.0] for x, y in pts])
+        arr = np.array(polys)
+        pc = g.PolygonCollection(arr)
+        base = call_impl(lambda: np.asarray(pc.area, dtype=float))
+        if base[0] != "ok":
+            continue
+        for axis, pos in ((0, 0), (1, 1), (-3, 1)):
+            desc = f"PolygonCollection {arr[..., :3].tolist()} expand_dims({axis}) then .area"
+            ctx.case(desc)
+            ctx.count("expand_dims:area")
+            r = call_impl(lambda: np.asarray(pc.expand_dims(axis).area, dtype=float))
+            exp = np.expand_dims(base[1], pos)
+            if r[0] != "ok" or r[1].shape != exp.shape or not np.allclose(r[1], exp, rtol=1e-9):
+                ctx.disagree("C17:expand_dims:area", desc, exp.tolist(), r[1:3] if r[0] != "ok" else r[1].tolist(), replay=[desc])
+
+
 def correspondence(ctx):
+    expand_dims_measures_stream(ctx, ctx.budget(15, 150))
     repeated_vertex_eq_stream(ctx, ctx.budget(30, 300))
     from props import c03
     c03.polyhedron_eq_stream(ctx, ctx.budget(15, 150), prefix="C17")
